@@ -20,6 +20,7 @@ pub mod c10;
 pub mod c12;
 pub mod c13;
 pub mod c14;
+pub mod c16;
 pub mod c0405;
 pub mod msg;
 pub mod c19;
@@ -34,6 +35,7 @@ pub fn lookup(id: &str) -> Option<Box<dyn Prop>> {
         "C12" => Some(Box::new(c12::C12)),
         "C13" => Some(Box::new(c13::C13)),
         "C14" => Some(Box::new(c14::C14)),
+        "C16" => Some(Box::new(c16::C16)),
         "C19" => Some(Box::new(c19::C19)),
         "C01" => Some(Box::new(c01::C01)),
         "C02" => Some(Box::new(c02::C02)),
@@ -52,6 +54,7 @@ pub fn lookup(id: &str) -> Option<Box<dyn Prop>> {
 /// subprocess worker entry (none yet)
 pub fn worker(args: &[String]) -> i32 {
     match args.first().map(|s| s.as_str()) {
+        Some("crash") => c16::worker_crash(args.get(1).map(|s| s.as_str()).unwrap_or("")),
         Some("seeded") => c14::worker_seeded(args.get(1).map(|s| s.as_str()).unwrap_or("")),
         _ => 2,
     }
